@@ -58,6 +58,9 @@ type c04SplitCase struct {
 	MultiDoc bool           `json:"multi_doc"` // one file with `---` documents instead of several files
 	Attrs    []string       `json:"attrs"`     // attributes that were split (for the failure message)
 	Splits   []c04SplitInfo `json:"splits"`
+	// the service is named `x-web` instead of `web`: mergeMappings treats EVERY key starting with "x-" as an extension and
+	// replaces its value as a whole, also where the key is a user-chosen name (recorded finding xprefix-name-replaced:services)
+	XNamed bool `json:"x_named,omitempty"`
 }
 
 // labelAt: the known-defect label that explains a failure with key `base` at position `where`, if the splits that
@@ -206,6 +209,9 @@ func init() {
 			sOk, sHas := r.Split["ok"]
 			if !sHas {
 				et := fmt.Sprint(r.Split["err"])
+				if c.XNamed && strings.Contains(et, "x-web") {
+					return core.Fail("xprefix-name-replaced:services", fmt.Sprintf("service named x-web: the later file replaces the whole service instead of merging it key by key (%s): %v", attrs, r.Split["err"]))
+				}
 				return core.Fail("split-error:"+c04ErrKey(et)+c.labelAt(c04ErrKey(et), c04ErrPath.FindString(et)), fmt.Sprintf("the target document loads but its split (%s) is rejected: %v", attrs, r.Split["err"]))
 			}
 			c04SortIpam(sOk)
@@ -214,6 +220,9 @@ func init() {
 				return nil
 			}
 			where, a, b := c04Diff("", sOk, tOk)
+			if c.XNamed && strings.HasPrefix(where, ".services.x-web") {
+				return core.Fail("xprefix-name-replaced:services", fmt.Sprintf("service named x-web, split %s: at %s the merged files give %s but the target document gives %s (the later file replaced the whole service)", attrs, where, c04Short(a), c04Short(b)))
+			}
 			return core.Fail("split:"+c04KeyOfPath(where)+c.labelAt(c04KeyOfPath(where), where), fmt.Sprintf("split %s: at %s the merged files give %s but the target document gives %s", attrs, where, c04Short(a), c04Short(b)))
 		},
 	})
@@ -1828,6 +1837,27 @@ func (g *c04o) splitCase(k int) (c04SplitCase, []c04Split) {
 		}
 	}
 	c := c04SplitCase{Attrs: attrs, Splits: infos, MultiDoc: g.chance(1, 3)}
+	if g.chance(1, 15) {
+		// a user-chosen NAME that happens to start with "x-": names are not extensions
+		c.XNamed = true
+		rename := func(d map[string]any) {
+			if svcs, ok := d["services"].(map[string]any); ok {
+				if w, ok := svcs["web"]; ok {
+					delete(svcs, "web")
+					svcs["x-web"] = w
+				}
+			}
+		}
+		for _, d := range docs {
+			rename(d)
+		}
+		rename(target)
+		for i := range c.Splits {
+			if strings.HasPrefix(c.Splits[i].Path, "services.web") {
+				c.Splits[i].Path = "services.x-web" + strings.TrimPrefix(c.Splits[i].Path, "services.web")
+			}
+		}
+	}
 	for _, d := range docs {
 		c.Docs = append(c.Docs, yDocOf(d).yaml())
 	}
@@ -1852,6 +1882,9 @@ func runC04Oracle(ctx *core.Ctx, gg *c04g) {
 			if s.Null {
 				ctx.Count("split-null-mention:" + s.Kind)
 			}
+		}
+		if c.XNamed {
+			ctx.Count("split-x-named-service")
 		}
 		if c.MultiDoc {
 			ctx.Count("split-as-documents")
